@@ -7,6 +7,8 @@ HOOKS = {
 }
 
 ENGINES = [
+    {"name": "schedmc", "path": "/verif/schedmc", "serves_properties": ["C06", "C07", "C20"],
+     "kind_free_text": "Engine B: controlled-scheduler model checker for the real mpx/rpc code: a go/ast instrumenter rewrites sync, sync/atomic, go, select and channel operations of mpx, rpc, internal/writer and the baselibrary primitives to shims of a cooperative scheduler (injected by go build -overlay); stateless DFS over schedules with preemption / free-switch / environment-deviation bounds; fake transport, virtual time, deterministic LIFO pools; explicit-state BFS over event sequences for flow control; TLA+/TLC model bound to the code by edge-by-edge graph comparison"},
     {"name": "seqmc", "path": "/verif/seqmc", "serves_properties": ["C01", "C02", "C08", "C10", "C12", "C13", "C17"],
      "kind_free_text": "Engine A: bounded-exhaustive sequential explorer (deterministic enumerators over boundary alphabets, sharded worker processes, guard-page memory, explicit-state BFS over operation sequences with replay on fresh instances)"},
 ]
@@ -16,6 +18,24 @@ NOTES = "All checks are driven by bin/vcheck (lib/vcheck.py): it rebuilds the en
 NOT_APPLICABLE = {}
 
 CHECKS = {
+    "C06": {
+        "engine": "schedmc", "level": "model_checking", "design_ref": "DESIGN.md §P C06",
+        "technique": "stateless model checking of the real mpx code under a controlled scheduler: exhaustive DFS over all schedules of narrow 3-4 thread seams within a preemption bound (CHESS-style iterative context bounding)",
+        "text": "Eight narrow seams built from the real connection internals (receive dispatch, send loop, handler task, user Free/SendAndClose, conn.close) are explored over ALL schedules with at most 2 (quick) / 3 (thorough) preemptions, unbounded free switches and 1 environment deviation; every sync/atomic/channel operation of mpx is a scheduling point. Oracle per execution: the connection stays open, no panic reaches the receive loop, send loop, conn.close or the user, no error record is logged, frames for the ended channel are dropped silently, a sibling channel still receives exactly its messages.",
+        "note": "Interleavings inside baselibrary primitives are not explored (quiet shims); data races proper and weak-memory effects are outside the scheduler's view; bounds are stated in the evidence.",
+    },
+    "C07": {
+        "engine": "schedmc", "level": "model_checking", "design_ref": "DESIGN.md §P C07, §D",
+        "technique": "explicit-state BFS over event sequences on two real channel objects (all W in 1..16/32 and large W), plus a TLA+ model checked by TLC whose complete state graph for W<=5/8 is compared edge by edge with the graph produced by the real code, plus schedule exploration of the wake-up race",
+        "text": "Implementation level: breadth-first search over all sequences of {Send(s), SendAndClose(s), deliver frame, consume, deliver window update} on a real sender channel and a real receiver channel joined by scripted wires, for every window W in 1..16 (quick) / 1..32 (thorough) and 2^16 (2^24), sizes {1,W/2-1,W/2,W/2+1,W-1,W,W+1,2W}; at every admission free>=min(size,W/2) and outstanding<=max(W,W-floor(W/2)+size); no terminal state has a parked sender. Model level: FlowControl.tla (same actions) is checked by TLC for the same invariants up to W=32/64; its full labelled state graph for W<=5 (quick) / 8 (thorough) is compared with the implementation graph: every model edge is reproduced by the real code and vice versa. The one-slot wake-up is explored separately over all schedules with up to 3/4 preemptions.",
+        "note": "Events are atomic at harness granularity; equal abstractions are merged; for W beyond the conformance range the verdict rests on the W-parametric model plus the implementation BFS.",
+    },
+    "C20": {
+        "engine": "schedmc", "level": "model_checking", "design_ref": "DESIGN.md §P C20",
+        "technique": "stateless model checking under a controlled scheduler: exhaustive DFS over all schedules (preemption bound 2/3) of registration/unsubscription/close and open/close/handler-exit seams, with baselibrary flag and map operations as scheduling points",
+        "text": "Listener seams (OnClosed / ConnContext.OnDisconnected registration, unsubscription, two registrations, each racing with conn.close) run in fine mode where the closed flag and the listener map operations are scheduling points; handler seams cover open-then-close, open+close batch, duplicate open id and connection loss. Oracle: a listener whose registration reported success and that was not unsubscribed is called exactly once, never if registration reported closed or unsub returned before the close began, Closed() is set inside every listener, a repeated close notifies nobody; the handler runs exactly once per accepted open and its context is cancelled exactly when the channel ends or the connection is lost.",
+        "note": "Same scheduler assumptions as C06.",
+    },
     "C12": {
         "engine": "seqmc", "level": "model_checking", "design_ref": "DESIGN.md §P C12",
         "technique": "explicit-state breadth-first search over all writer call sequences up to length 6/8 on the real writer (successor = replay on a fresh writer + one call; states deduplicated by an in-package dump of the complete writer state)",
